@@ -514,12 +514,10 @@ var _ = filepath.Join
 // what the binder knows about its history (used only to classify a
 // divergence).
 type curState struct {
-	c         database.Cursor
-	lastDir   string // direction of the last move: "fwd" | "back" | ""
-	dirTaint  bool   // the direction changed since the last First/Last/Seek
-	deleted   bool   // Cursor.Delete was used
-	seekTaint bool   // First/Last/Seek was called after a Delete
-	lastOp    string
+	c        database.Cursor
+	lastDir  string // direction of the last move: "fwd" | "back" | ""
+	dirTaint bool   // the direction changed since the last First/Last/Seek
+	lastOp   string
 }
 
 func (w *world) cursorStep(l tla.Value) []divergence {
@@ -556,21 +554,14 @@ func (w *world) cursorStep(l tla.Value) []divergence {
 		if err := cs.c.Delete(); err != nil {
 			return []divergence{{"api:cursor-delete", fmt.Sprintf("Cursor.Delete failed: %v", err)}}
 		}
-		cs.deleted = true
 		cs.lastOp = op
 		return nil
 	}
 	switch op {
 	case "First", "Seek":
 		cs.lastDir, cs.dirTaint = "fwd", false
-		if cs.deleted {
-			cs.seekTaint = true
-		}
 	case "Last":
 		cs.lastDir, cs.dirTaint = "back", false
-		if cs.deleted {
-			cs.seekTaint = true
-		}
 	case "Next":
 		if cs.lastDir == "back" {
 			cs.dirTaint = true
@@ -590,13 +581,11 @@ func (w *world) cursorStep(l tla.Value) []divergence {
 	return nil
 }
 
-// cursorKey classifies a cursor divergence: the two known defects of the
-// merged cursor get their own keys, everything else is an ordering violation.
+// cursorKey classifies a cursor divergence: the known defect of the merged
+// cursor (wrong position after a change of direction) gets its own key,
+// everything else is an ordering violation.
 func (w *world) cursorKey(cs *curState) string {
-	switch {
-	case cs.seekTaint && (cs.lastOp == "Next" || cs.lastOp == "Prev"):
-		return "cursor:reposition-after-delete"
-	case cs.dirTaint && (cs.lastOp == "Next" || cs.lastOp == "Prev"):
+	if cs.dirTaint && (cs.lastOp == "Next" || cs.lastOp == "Prev") {
 		return "cursor:direction-change"
 	}
 	return "order:cursor-move"
